@@ -521,6 +521,12 @@ pub fn explore(cfg: &Cfg, mode: &ModeSpec, lname: &str, level: P, stream: &str, 
                 rep.violation(&key, format!("{} {} at {} after {:?}: expected {}, observed {}", mode.name(), key, lname, cx.path(node), exp, obs), rj);
                 continue; // do not expand a violating state
             }
+            // a clone that went its own way (and was finalized) must not have influenced its original
+            rep.inc("clone_reobserve_checks");
+            if let Some((key, exp, obs)) = reobserve(&mut cx, &st) {
+                let rj = cx.replay_json(st.node, Some(op), &key, exp.clone(), obs.clone());
+                rep.violation(&key, format!("{} at {}: after {:?} (and a finalize) on a clone of the state reached by {:?}, the original gives {} instead of {}", mode.name(), lname, op, cx.path(st.node), obs, exp), rj);
+            }
             if !sampled && nst.depth == 4 {
                 sampled = true;
                 rep.sample(json!({"mode": mode.json(), "level": lname, "stream": stream, "alphabet": cfg.name,
